@@ -35,7 +35,7 @@ fn pcmp(x: &Arr, y: &Arr) -> Option<Ordering> {
 }
 
 pub fn standin_vclock_iter(r: &mut Report) {
-    r.target = "VClock::iter, VClock::into_iter / IntoIter::next: yield exactly the dots of the clock, each actor once; FromIterator<Dot> for VClock (under contract through the N4 shim over the caller's iterator): pointwise maximum, no zero stored".into();
+    r.target = "VClock::iter (verified against the Map-adapter shim), VClock::into_iter / IntoIter::next (assumed): yield exactly the dots of the clock, each actor once; FromIterator<Dot> for VClock (under contract through the N4 shim over the caller's iterator): pointwise maximum, no zero stored".into();
     r.bound = "all clocks over actors {0,1,2} with counters 0..=3 (64 clocks); all sequences of 3 dots over 3 actors x counters 0..=2 (729)".into();
     for a in all(3) {
         let c = mk(&a);
